@@ -175,6 +175,17 @@ def itemMeta (sCa sUa sEx : Bool) (m : Meta) (it : Item) : Meta :=
     exp := if sEx then it.exp else m.exp }
 
 /-! ## Spec -/
+/-- a key the storage file can hold: not empty, at most 65535 bytes (16-bit length field) -/
+def validKey (k : Key) : Bool := k != "" && decide (k.utf8ByteSize ≤ 65535)
+
+/-- the requests that can create a record refuse a key the file cannot hold (InvalidArgument, the
+    whole request, before anything is created) -/
+def Req.badKey : Req → Bool
+  | .set _ _ items => items.any fun it => !validKey it.key
+  | .inc _ k _ _ _ _ => !validKey k
+  | .push pairs => pairs.any fun p => !validKey p.1
+  | _ => false
+
 namespace Spec
 
 abbrev Store := List (Key × Rec)
@@ -281,7 +292,8 @@ def delAll : Store → List Key → Store × List St
       let (st', out) := delAll st rest
       (st', .nf :: out)
 
-def step (ar : Arith) (now : Int) (st : Store) : Req → Store × Resp
+/-- the request on keys that passed the key check -/
+def stepV (ar : Arith) (now : Int) (st : Store) : Req → Store × Resp
   | .set create over items =>
     if items.isEmpty then (st, .err "InvalidArgument")
     else if !create && !over then (st, .setErr "CanNotBeExecuted" false)
@@ -334,6 +346,9 @@ def close (kind : Kind) (st : Store) : Store :=
   | .mem => []
   | _ => st
 
+def step (ar : Arith) (now : Int) (st : Store) (req : Req) : Store × Resp :=
+  if req.badKey then (st, .err "InvalidArgument") else stepV ar now st req
+
 end Spec
 
 /-! ## Model -/
@@ -372,6 +387,13 @@ structure Cfg where
   /-- the float Increment handlers evaluate `cur > ref` (…) as written; false: as "fail when the
       complement holds" (`if cur <= ref { fail }`), which a NaN operand never fails -/
   fltCondDirect : Bool
+  /-- Set / Increment / Uint32SlicePush answer InvalidArgument for a key the file cannot hold
+      (false: the record is acknowledged and the writer refuses it at flush time) -/
+  keyChecked : Bool
+  /-- a record re-created while its delete is still queued inherits the file pointer of the queued
+      delete (false: it counts as never written, and a following delete drops it from the write
+      buffer without writing a delete entry) -/
+  recreateKeepsPointer : Bool
   /-- `SaveFunction` releases the record guard itself when the write interval is 0 -/
   saveReleasesImmediate : Bool
   encoding : Encoding
@@ -398,6 +420,7 @@ inductive Tag where
   | zeroLikeDropped    -- close/reload changed a zero-like value into void
   | resurrected        -- a key that was deleted comes back from the file at reload
   | nanCond            -- a float ordering condition was evaluated through its complement
+  | unstorableKey      -- a record was accepted under a key the file cannot hold
   deriving DecidableEq, Repr, Inhabited
 
 /-- the code's treasure object -/
@@ -540,6 +563,10 @@ def save (cfg : Cfg) (i : Inst) (k : Key) (t : MRec) (fresh : Bool) : Inst × St
   | none =>
     ({ i with recs := AL.insert k cleared i.recs, inflight := AL.erase k i.inflight,
               filed := if i.imm && cfg.saveReleasesImmediate then (AL.insert k cleared i.recs).map (·.1)
+                       -- the key is not in the key beacon: an entry waiting for the writer is a queued delete of a
+                       -- written record, whose file pointer the new treasure inherits (or not)
+                       else if cfg.recreateKeepsPointer && i.waiting.contains k then
+                         (if i.filed.contains k then i.filed else i.filed ++ [k])
                        else i.filed.filter (· != k),
               waiting := if i.imm && cfg.saveReleasesImmediate then [] else addWaiting i.waiting k,
               disk := if i.imm && cfg.saveReleasesImmediate then
@@ -788,7 +815,8 @@ def closeTags (cfg : Cfg) (i : Inst) : List Tag :=
    then [Tag.incFailTrace] else []) ++
   (if ((closeDisk cfg i).getD []).any (fun q => !AL.has q.1 i.recs) then [Tag.resurrected] else [])
 
-def stepCore (cfg : Cfg) (ar : Arith) (now : Int) (s : State) (req : Req) : Out :=
+/-- the request on keys that passed (or were not put to) the key check -/
+def stepCoreV (cfg : Cfg) (ar : Arith) (now : Int) (s : State) (req : Req) : Out :=
   match req with
   | .set create over items =>
     if items.isEmpty then ⟨s, .err "InvalidArgument", []⟩
@@ -874,6 +902,12 @@ def closeStep (cfg : Cfg) (s : State) : State × List Tag :=
     match s.kind with
     | .mem => ({ s with live := none }, [])
     | _ => ({ s with live := none, file := closeDisk cfg i }, closeTags cfg i)
+
+def stepCore (cfg : Cfg) (ar : Arith) (now : Int) (s : State) (req : Req) : Out :=
+  if cfg.keyChecked && req.badKey then ⟨s, .err "InvalidArgument", []⟩
+  else
+    let o := stepCoreV cfg ar now s req
+    ⟨o.s, o.r, o.tags ++ (if req.badKey then [Tag.unstorableKey] else [])⟩
 
 /-- the Spec-level view of a model state -/
 def abs (s : State) : Spec.Store :=
